@@ -417,6 +417,8 @@ impl VersionManager {
 
         // For levels that require synchronization, acquire version under lock
         let (version, min_version) = if self.concurrency_level.requires_synchronization() {
+            #[cfg(feature = "zipora_verif")]
+            crate::verif_hooks::sched_point(410);
             let _lock = self.token_chain_mutex.lock().map_err(|_| {
                 ZiporaError::system_error("Failed to acquire token chain mutex for reader")
             })?;
@@ -488,6 +490,8 @@ impl VersionManager {
 
         // Acquire version under lock for synchronized levels
         let (version, min_version) = if self.concurrency_level.requires_synchronization() {
+            #[cfg(feature = "zipora_verif")]
+            crate::verif_hooks::sched_point(403);
             let _lock = self.token_chain_mutex.lock().map_err(|_| {
                 if exclusive {
                     // give the claimed writer slot back
@@ -573,6 +577,8 @@ impl VersionManager {
         crate::verif_hooks::sched_point(421);
         // Serialise with token acquisition, which assigns a version and counts the new token
         // under the same lock; otherwise min_version could overtake a token being handed out
+        #[cfg(feature = "zipora_verif")]
+        crate::verif_hooks::sched_point(424);
         let _lock = self
             .token_chain_mutex
             .lock()
